@@ -75,6 +75,22 @@ class Consult:
             if (isinstance(n, ast.Call) and isinstance(n.func, ast.Attribute) and isinstance(n.func.value, ast.Call)
                     and isinstance(n.func.value.func, ast.Name) and n.func.value.func.id == "super"):
                 out |= self.of(n.func.attr, fn.cls, depth + 1, stack)
+        # a module-level helper that receives self: helper(self, ...) reads, through its parameter, what self.<m>() would
+        for n in ast.walk(fn.node):
+            if isinstance(n, ast.Call) and isinstance(n.func, ast.Name) and depth < 5:
+                pos = [i for i, a_ in enumerate(n.args) if isinstance(a_, ast.Name) and a_.id == sn]
+                h = self.idx.function_of_expr(fn.module, n.func) if pos else None
+                if h is not None and h.cls is None and h.qualname not in stack:
+                    hp = h.params()
+                    for i in pos:
+                        if i < len(hp):
+                            pn = hp[i]
+                            for x in ast.walk(h.node):
+                                if isinstance(x, ast.Attribute) and isinstance(x.value, ast.Name) and x.value.id == pn:
+                                    if self.idx.resolve_method(self.cls, x.attr) is not None:
+                                        out |= self.of(x.attr, None, depth + 1, stack | {h.qualname})
+                                    else:
+                                        out.add(x.attr)
         # modelled indirections of the base class
         if fn.cls is self.base and m == "matmul":
             out |= self.of("_matmul", None, depth + 1, stack)  # Matmul.apply(self.representation_tree(), ...) -> _matmul
